@@ -130,7 +130,10 @@ def gen_cases(tier, rng):
         for c in allc:
             by.setdefault((c["cls"], c["dunder"], bool(c.get("swap"))), []).append(c)
         for k in sorted(by):
-            cases.extend(rng.sample(by[k], min(len(by[k]), 4 if k[2] else 6)))
+            if k[1] in ("__invert__", "logical_not"):
+                cases.extend(by[k])        # the unary operators are few: every self dtype (bool among them) x data shape
+            else:
+                cases.extend(rng.sample(by[k], min(len(by[k]), 20 if k[2] else 30)))
     else:
         cases.extend(allc)
     return cases
